@@ -868,6 +868,33 @@ func replayMain(prop *Prop, path string) int {
 	return 0
 }
 
+func componentsOf(prop *Prop) map[string]string {
+	if prop.Engine == "B" && prop.ID != "C05" && prop.ID != "C07" {
+		return map[string]string{
+			"proto, compress":                 "real code, unmodified (C06: row and string caps lowered in the scratch copy)",
+			"lz4, zstd, city":                 "real code",
+			"io.Reader / io.Writer under them": "simulated (simio.FaultyReader / FaultySink: segmentation, short reads, cut, reset, altered bytes, failing and short writes)",
+			"scheduler, clock, network":       "none: these surfaces are single-threaded and read no clock",
+			"reference model / codec":         "harness code (refproto, list-of-values and pending-bytes models)",
+			"toolchain":                       runtime.Version(),
+		}
+	}
+	m := map[string]string{
+		"ch, chpool":              "real code, yields woven into a scratch copy at check time (selects rewritten so that the simulator picks among ready cases)",
+		"proto, compress, otelch": "real code, unmodified",
+		"puddle, errgroup, context, zap, otel, lz4, zstd, city, uuid": "real code (uuid with a seeded source)",
+		"goroutine scheduling":   "seeded scheduler: one goroutine released per decision",
+		"clock and timers":       "testing/synctest fake clock",
+		"TCP connection, dialer": "simulated (simnet)",
+		"ClickHouse server":      "scripted reference server over the independent codec refproto",
+		"toolchain":              runtime.Version(),
+	}
+	if prop.Engine == "B" {
+		m["note"] = "most cases of this check are engine-B stream histories (no scheduler); one family runs a real client in the simulator"
+	}
+	return m
+}
+
 func writeEvidence(prop *Prop, tier string, base uint64, a *agg, wall float64, viol, detChecked, detBad, workers int) {
 	dn := len(a.nontrivial)
 	samples := a.samples
@@ -893,15 +920,7 @@ func writeEvidence(prop *Prop, tier string, base uint64, a *agg, wall float64, v
 		"max_site_pairs_in_one_run":  a.pairsMax,
 		"determinism_spot_check":     map[string]int{"runs_repeated_in_fresh_process": detChecked, "mismatches": detBad},
 		"workers":                    workers,
-		"components": map[string]string{
-			"ch, chpool":              "real code, yields woven into a scratch copy at check time",
-			"proto, compress, otelch": "real code, unmodified",
-			"puddle, errgroup, context, zap, otel, lz4, zstd, city, uuid": "real code (uuid with a seeded source)",
-			"clock and timers":       "testing/synctest fake clock (engine A); none (engine B)",
-			"TCP connection, dialer": "simulated (simnet)",
-			"ClickHouse server":      "scripted reference server over the independent codec refproto",
-			"toolchain":              runtime.Version(),
-		},
+		"components": componentsOf(prop),
 	}
 	if len(a.siteSet) > 0 {
 		cov["yield_sites_reached"] = len(a.siteSet)
